@@ -1,7 +1,12 @@
 import Litep2pVerif.Common.Parse
-import Litep2pVerif.Model.Conn.Permits
+import Litep2pVerif.Model.Conn.Accept
 /-! Line-protocol driver for the `tcploop` area: `Model/Conn/Permits.lean` against the real
 `TcpConnection::start` loop (adapter `src/verif/tcploop.rs`).
+
+`run`-like operations (`run`, `sleep`, `resume`, `drop_rx`, `accept`) let the local futures go to quiescence, let
+everybody who is not paused take what is in its channel, and repeat until nothing more arrives. The passage of real
+time (`sleep`) enables nothing in the model: a full channel only delays a report. A connection built with `sot=`
+(small `substream_open_timeout`) may see any negotiation time out in any such operation.
 
 `run` lets the loop go to quiescence. Which ready branch `tokio::select!` takes is its RNG's choice, so
 the driver explores EVERY order of the enabled transitions and works in checker mode: the
@@ -33,7 +38,22 @@ structure DState where
   remoteClosed : Bool := false
   /-- per protocol, table indices of the `SubstreamOpened` messages in its channel, in order -/
   inq : List (List Nat) := []
+  /-- `via=accept`: the connection goes through `TcpTransport::accept` (`Model/Conn/Accept.lean`) -/
+  via : Bool := false
+  phase : APhase := .up
+  pausedM : Bool := false
+  /-- some protocol has taken a `ConnectionEstablished` (the adapter has a handle to probe with) -/
+  probe : Bool := false
+  /-- `sot=`: negotiations may time out -/
+  timeouts : Bool := false
   deriving DecidableEq, Repr
+
+/-- One transition of the accept machine (`astep`) on the driver's state. -/
+def dstepA (d : DState) (l : ALabel) : DState :=
+  let a := astep { phase := d.phase, t := d.t } l
+  { d with t := a.t, phase := a.phase }
+
+def dstep (d : DState) (l : TLabel) : DState := dstepA d (.t l)
 
 /-- Checker mode keeps EVERY model state that is consistent with the observations so far: two orders of a
 `run` may look the same now (a paused protocol, a reset racing with a finished negotiation) and differ later. -/
@@ -56,7 +76,8 @@ def subNegotiating (d : DState) (k : Nat) : Bool :=
   | none => false
 
 def enabled (d : DState) : List TLabel :=
-  if d.t.running = false then [] else
+  -- before the accept future has resolved there is no loop to poll
+  if d.t.running = false || d.phase != .up then [] else
   -- once the remote has gone away yamux may report the end before it has handed out every stream it read
   let acc := (match firstUntaken d.rstreams with
     | some _ => [TLabel.accept]
@@ -82,13 +103,21 @@ def enabled (d : DState) : List TLabel :=
   let idle := if d.t.idleEnabled then [TLabel.idleExit] else []
   acc ++ inb ++ out ++ cmd ++ idle
 
+/-- Transitions that MAY fire: `tokio::time::timeout(open_timeout, ..)` around every negotiation, in a connection
+whose `substream_open_timeout` was made small (`sot=`). -/
+def enabledOpt (d : DState) : List TLabel :=
+  if d.t.running = false || d.phase != .up || !d.timeouts then [] else
+  (List.range d.t.subs.length).filterMap fun k => if subNegotiating d k then some (TLabel.negFail k) else none
+
 def pushInq (inq : List (List Nat)) (p k : Nat) : List (List Nat) :=
   match inq[p]? with
   | some q => inq.set p (q ++ [k])
   | none => inq
 
 def apply (d : DState) (l : TLabel) : DState :=
-  let t' := tstep d.t l
+  let d' := dstep d l
+  let t' := d'.t
+  let d := { d with phase := d'.phase }
   match l with
   | .accept =>
     match firstUntaken d.rstreams with
@@ -108,7 +137,7 @@ def apply (d : DState) (l : TLabel) : DState :=
   | _ => { d with t := t' }
 
 def stageStr : Stage → String
-  | .negotiating => "n" | .queued => "q" | .held => "h" | .gone => "g"
+  | .negotiating => "n" | .queued => "q" | .held => "h" | .heldHalf => "H" | .gone => "g"
 
 def subStr (d : DState) (k : Option Nat) : String :=
   match k.bind (d.t.subs[·]?) with
@@ -149,7 +178,15 @@ def key (d : DState) : String :=
   let os := joinWith ";" (d.outAns.map fun (k, p) =>
     (match p with | .accept => "a" | .refuse => "r" | .stall => "s") ++ subStr d (some k))
   let qs := joinWith ";" ((List.range d.n).map fun i => joinWith "," (queueLetters d i))
-  let mg := if l.ps.mgr.alive then toString l.ps.mgr.queue.length else "x"
+  let mg := (if l.ps.mgr.alive then toString l.ps.mgr.queue.length else "x") ++
+    (match l.ps.call with
+      | .idle => "i"
+      | .protoSends _ w e => "p" ++ joinWith "," (w.map toString) ++ (if e then "e" else "")
+      | .mgrSend e => if e then "me" else "m"
+      | .result _ ok => if ok then "r" else "f") ++
+    (match d.phase with | .parked => "P" | .notifying => "N" | .failed => "F" | .up => "U") ++
+    (if d.probe then "b" else "") ++
+    String.join (d.t.subs.map fun x => stageStr x.stage ++ (match x.proto with | some p => toString p | none => "_"))
   ex ++ co ++ s!"|{d.t.accepted}|" ++ hs ++ "|" ++ cq ++ "|" ++ rs ++ "|" ++ os ++ "|" ++ qs ++ "|" ++ mg ++
     (if l.ps.closedReported then "|R" else "|")
 
@@ -161,8 +198,9 @@ partial def exploreK (work : List DState) (seen : List String) (finals : List DS
     let k := key d
     if seen.contains k then exploreK rest seen finals else
     let evs := enabled d
-    if evs.isEmpty then exploreK rest (k :: seen) (finals ++ [d])
-    else exploreK (evs.map (apply d) ++ rest) (k :: seen) finals
+    let opt := enabledOpt d
+    if evs.isEmpty then exploreK (opt.map (apply d) ++ rest) (k :: seen) (finals ++ [d])
+    else exploreK ((evs ++ opt).map (apply d) ++ rest) (k :: seen) finals
 
 def explore (work : List DState) (_seen _finals : List DState) : List DState := exploreK work [] []
 
@@ -193,7 +231,8 @@ def drainProto (fuel : Nat) (d : DState) (i : Nat) (acc : List String) : DState 
               (dir, d.inq.modify i List.tail)
             | none => ("O?", d.inq)
           | m => (letter m, d.inq)
-        drainProto fuel { d with t := tstep d.t (.recv i), inq := inq } i (acc ++ [l])
+        let d' := dstep { d with inq := inq } (.recv i)
+        drainProto fuel { d' with probe := d'.probe || m == .established } i (acc ++ [l])
 
 def drainMgr (fuel : Nat) (d : DState) (acc : List String) : DState × List String :=
   match fuel with
@@ -202,32 +241,98 @@ def drainMgr (fuel : Nat) (d : DState) (acc : List String) : DState × List Stri
     if d.t.loop.ps.mgr.alive = false then (d, acc) else
     match d.t.loop.ps.mgr.queue.head? with
     | none => (d, acc)
-    | some m => drainMgr fuel { d with t := tstep d.t .recvMgr } (acc ++ [letter m])
+    | some m => drainMgr fuel (dstep d .recvMgr) (acc ++ [letter m])
 
 def showList (l : List String) : String := if l.isEmpty then "-" else joinWith "," l
 
-/-- Drain (unless paused) and print. -/
-def observe (d : DState) (ret : String) : DState × String :=
-  let (d, parts) := (List.range d.n).foldl (fun (acc : DState × List String) i =>
+/-- What the protocols and the manager took during an operation (`none` = receiver gone). -/
+structure Got where
+  ps : List (Option (List String))
+  m : List String
+
+def Got.isEmpty (g : Got) : Bool := g.m.isEmpty && g.ps.all fun p => match p with
+  | some l => l.isEmpty
+  | none => true
+
+def Got.append (a b : Got) : Got :=
+  { ps := (List.range (max a.ps.length b.ps.length)).map (fun i =>
+      match a.ps.getD i none, b.ps.getD i none with
+      | none, _ => none
+      | _, none => none
+      | some x, some y => some (x ++ y)),
+    m := a.m ++ b.m }
+
+/-- Everybody who is not paused takes what is in its channel. -/
+def drainAll (d : DState) : DState × Got :=
+  let (d, parts) := (List.range d.n).foldl (fun (acc : DState × List (Option (List String))) i =>
     let alive := match acc.1.t.loop.ps.chans[i]? with
       | some c => c.alive
       | none => false
-    if !alive then (acc.1, acc.2 ++ [s!" p{i}=x"]) else
-    if acc.1.paused.getD i false then (acc.1, acc.2 ++ [s!" p{i}=-"]) else
+    if !alive then (acc.1, acc.2 ++ [none]) else
+    if acc.1.paused.getD i false then (acc.1, acc.2 ++ [some []]) else
     let (d', ms) := drainProto 256 acc.1 i []
-    (d', acc.2 ++ [s!" p{i}=" ++ showList ms])) (d, [])
-  let (d, mm) := drainMgr 256 d []
-  let st := match d.t.loop.exited with
-    | none => "run"
-    | some .ok => "ok"
-    | some .err => "err"
-  let strong := if d.t.loop.exited.isSome then "-" else if 0 < d.t.strong then "y" else "n"
-  (d, ret ++ " loop=" ++ st ++ s!" acc={d.t.accepted}" ++ " strong=" ++ strong ++ String.join parts ++
-    " m=" ++ showList mm)
+    (d', acc.2 ++ [some ms])) (d, [])
+  let (d, mm) := if d.pausedM then (d, []) else drainMgr 256 d []
+  (d, { ps := parts, m := mm })
 
-def freshConn (ka : List Bool) (policy : Policy) : DState :=
-  { t := tinit ka 64, n := ka.length, policy := policy, paused := List.replicate ka.length false,
-    inq := List.replicate ka.length [] }
+def render (d : DState) (ret : String) (g : Got) : String :=
+  let st :=
+    if d.via then
+      match d.phase with
+      | .parked => "parked"
+      | .notifying => "accepting"
+      | .failed => "failed"
+      | .up => if d.t.loop.exited.isSome then "end" else "run"
+    else match d.t.loop.exited with
+      | none => "run"
+      | some .ok => "ok"
+      | some .err => "err"
+  let strong :=
+    if d.t.loop.exited.isSome || d.phase != .up || !d.probe then "-" else if 0 < d.t.strong then "y" else "n"
+  let parts := (List.range d.n).map fun i =>
+    s!" p{i}=" ++ (match g.ps.getD i none with
+      | none => "x"
+      | some l => showList l)
+  ret ++ " loop=" ++ st ++ s!" acc={d.t.accepted}" ++ " strong=" ++ strong ++ String.join parts ++
+    " m=" ++ showList g.m
+
+/-- Drain (unless paused) and print. -/
+def observe (d : DState) (ret : String) : DState × String :=
+  let (d, g) := drainAll d
+  (d, render d ret g)
+
+structure Opts where
+  cap : Nat := 64
+  mcap : Nat := 64
+  timeouts : Bool := false
+  via : Bool := false
+
+def freshConnO (ka : List Bool) (policy : Policy) (o : Opts) : DState :=
+  let t0 := if o.via then (ainit ka o.cap o.mcap).t else tinit ka o.cap
+  let t0 := { t0 with loop := { t0.loop with ps := { t0.loop.ps with mgr := { cap := o.mcap } } } }
+  { t := t0, n := ka.length, policy := policy, paused := List.replicate ka.length false,
+    inq := List.replicate ka.length [], via := o.via, phase := if o.via then .parked else .up,
+    timeouts := o.timeouts }
+
+def freshConn (ka : List Bool) (policy : Policy) : DState := freshConnO ka policy {}
+
+/-- `run`-like: explore to quiescence, drain, repeat while something was taken. Every outcome. -/
+partial def runLike (d : DState) (acc : Got) : List (DState × Got) :=
+  (explore [d] [] []).flatMap fun f =>
+    let (f', g) := drainAll f
+    if g.isEmpty then [(f', acc.append g)] else runLike f' (acc.append g)
+
+def emptyGot (d : DState) : Got :=
+  { ps := (List.range d.n).map fun i => match d.t.loop.ps.chans[i]? with
+      | some c => if c.alive then some [] else none
+      | none => none,
+    m := [] }
+
+def runLikeObs (ds : List DState) (ret : String) : List (DState × String) :=
+  ds.flatMap fun d => (runLike d (emptyGot d)).map fun (f, g) => (f, render f ret g)
+
+def heldCount (d : DState) (i : Nat) : Nat :=
+  (d.t.subs.filter fun x => x.proto == some i && (x.stage == .held || x.stage == .heldHalf)).length
 
 def protoTok (n : Nat) (s : String) : Option (Option Nat) :=
   if s = "x" then some none else
@@ -241,7 +346,7 @@ def handleOf (d : DState) (i : Nat) : HandleSt := d.t.handles.getD i .dropped
 def raceOutcomes : List String :=
   let d0 := (observe (freshConn [true] .accept) "").1
   let d1 := { d0 with rstreams := [{}] }
-  let d2 := { d1 with t := tstep d1.t (.downgrade 0) }
+  let d2 := dstep d1 (.downgrade 0)
   (explore [d2] [] []).map fun d =>
     let o := (observe d "").2
     let ts := tokens o
@@ -267,32 +372,32 @@ def opOn (d : DState) (ts : List String) : Option (DState × String) :=
     match idx i with
     | none => none
     | some i =>
-      if handleOf d i = .dropped then fin d "none" else fin { d with t := tstep d.t (.downgrade i) } "ok"
+      if handleOf d i = .dropped then fin d "none" else fin (dstep d (.downgrade i)) "ok"
   | ["upgrade", i] =>
     match idx i with
     | none => none
     | some i =>
       if handleOf d i = .dropped then fin d "none" else
-      let d' := { d with t := tstep d.t (.upgrade i) }
+      let d' := (dstep d (.upgrade i))
       fin d' (if handleOf d' i = .active then "active" else "inactive")
   | ["drop_handle", i] =>
     match idx i with
     | none => none
     | some i =>
-      if handleOf d i = .dropped then fin d "none" else fin { d with t := tstep d.t (.dropHandle i) } "ok"
+      if handleOf d i = .dropped then fin d "none" else fin (dstep d (.dropHandle i)) "ok"
   | ["local_open", i] =>
     match idx i with
     | none => none
     | some i =>
       if handleOf d i = .dropped then fin d "none" else
-      if canSend d.t i && d.t.loop.exited.isNone then fin { d with t := tstep d.t (.localOpen i) } "ok"
+      if canSend d.t i && d.t.loop.exited.isNone then fin (dstep d (.localOpen i)) "ok"
       else fin d "closed"
   | ["force_close", i] =>
     match idx i with
     | none => none
     | some i =>
       if handleOf d i = .dropped then fin d "none" else
-      if canSend d.t i && d.t.loop.exited.isNone then fin { d with t := tstep d.t (.forceClose i) } "ok"
+      if canSend d.t i && d.t.loop.exited.isNone then fin (dstep d (.forceClose i)) "ok"
       else fin d "closed"
   | ["remote_open", name, how] =>
     match protoTok d.n name, (how = "hdr" || how = "full") with
@@ -337,24 +442,37 @@ def opOn (d : DState) (ts : List String) : Option (DState × String) :=
     match idx i with
     | none => none
     | some i =>
-      match firstAt d.t.subs i .held with
-      | some _ => fin { d with t := tstep d.t (.dropSub i) } "ok"
-      | none => fin d "none"
+      if 0 < heldCount d i then fin (dstep d (.dropSub i)) "ok" else fin d "none"
+  | ["pause", "m"] => fin { d with pausedM := true } "ok"
   | ["pause", i] =>
     match idx i with
     | none => none
     | some i => fin { d with paused := d.paused.set i true } "ok"
-  | ["resume", i] =>
-    match idx i with
-    | none => none
-    | some i => fin { d with paused := d.paused.set i false } "ok"
-  | ["drop_rx", i] =>
+  | ["fill", "m"] =>
+    let c := d.t.loop.ps.mgr
+    if c.alive && !waitingOnMgr d.t.loop.ps && c.queue.length < c.cap then fin (dstep d .fillMgr) "ok"
+    else fin d "full"
+  | ["fill", i] =>
     match idx i with
     | none => none
     | some i =>
-      if protoAlive d.t i then
-        fin { d with t := tstep d.t (.dropRx i), inq := d.inq.set i [] } "ok"
-      else fin d "none"
+      match d.t.loop.ps.chans[i]? with
+      | some c =>
+        if c.alive && !waitingOn d.t.loop.ps i && c.queue.length < c.cap then fin (dstep d (.fill i)) "ok"
+        else fin d "full"
+      | none => fin d "full"
+  | ["remote_send", k] =>
+    match k.toNat? with
+    | some k =>
+      match d.rstreams[k]? with
+      | some r =>
+        -- data is sent only after a proposal for an installed protocol (anything else would be read as a proposal)
+        let proposed := match r.proposal with
+          | some (some _) => true
+          | _ => false
+        if r.reset || d.remoteClosed || !proposed then fin d "none" else fin d "ok"
+      | none => fin d "none"
+    | none => none
   | _ => none
 
 def dedup (l : List DState) : List DState :=
@@ -371,11 +489,17 @@ def choose (outs : List (DState × String)) (impl : String) : State × String :=
     | some (_, o) => ({ ds := dedup (outs.map (·.1)) }, o)
     | none => ({ ds := [] }, "bad-op")
 
+def natArg (args : List String) (k : String) (lo hi dflt : Nat) : Option Nat :=
+  match arg? k args with
+  | none => some dflt
+  | some v => (v.toNat?).filter fun n => lo ≤ n && n ≤ hi
+
 def step (st : State) (line : String) : State × String :=
   let (line, impl) := match line.splitOn " -> " with
     | [l, o] => (l, o)
     | _ => (line, "")
   let ts := tokens line
+  let idxOf := fun (d : DState) (s : String) => (s.toNat?).filter (· < d.n)
   match ts with
   | "conn" :: args =>
     if !st.ds.isEmpty then (st, "bad-op") else
@@ -386,21 +510,68 @@ def step (st : State) (line : String) : State × String :=
       | some "refuse" => some .refuse
       | some "stall" => some .stall
       | _ => none
-    let okArgs := args.all fun a => a.startsWith "ka=" || a.startsWith "remote="
+    let okArgs := args.all fun a => a.startsWith "ka=" || a.startsWith "remote=" || a.startsWith "cap=" ||
+      a.startsWith "mcap=" || a.startsWith "sot=" || a = "via=accept"
     if !okArgs || kas.isEmpty || kas.length > 4 || !(kas.toList.all fun c => c = 'Y' || c = 'N') then (st, "bad-op") else
-    match pol with
-    | none => (st, "bad-op")
-    | some pol =>
+    match pol, natArg args "cap" 1 64 64, natArg args "mcap" 1 64 64, natArg args "sot" 100 3600000 3600000 with
+    | some pol, some cap, some mcap, some _ =>
       if impl = "inconclusive" then (st, "inconclusive") else
-      let (d, o) := observe (freshConn (kas.toList.map (· = 'Y')) pol) "ok"
+      let o : Opts := { cap := cap, mcap := mcap, timeouts := (arg? "sot" args).isSome,
+                        via := args.contains "via=accept" }
+      let (d, o) := observe (freshConnO (kas.toList.map (· = 'Y')) pol o) "ok"
       ({ ds := [d] }, o)
+    | _, _, _, _ => (st, "bad-op")
   | ["arrange_race", k] =>
     match k.toNat? with
     | some k => if k ≤ 256 then (st, checkRace k impl) else (st, "bad-op")
     | none => (st, "bad-op")
   | ["run"] =>
+    if st.ds.isEmpty then (st, "bad-op") else choose (runLikeObs st.ds "ok") impl
+  | ["sleep", ms] =>
     if st.ds.isEmpty then (st, "bad-op") else
-    choose ((explore st.ds [] []).map fun f => observe f "ok") impl
+    match ms.toNat? with
+    | some ms => if ms ≤ 10000 then choose (runLikeObs st.ds "ok") impl else (st, "bad-op")
+    | none => (st, "bad-op")
+  | ["accept"] =>
+    if st.ds.isEmpty then (st, "bad-op") else
+    choose (st.ds.flatMap fun d =>
+      if d.via && d.phase = .parked then runLikeObs [dstepA d .call] "ok" else [observe d "none"]) impl
+  | ["resume", "m"] =>
+    if st.ds.isEmpty then (st, "bad-op") else
+    choose (runLikeObs (st.ds.map fun d => { d with pausedM := false }) "ok") impl
+  | ["resume", i] =>
+    if st.ds.isEmpty then (st, "bad-op") else
+    match st.ds.head?.bind (idxOf · i) with
+    | none => (st, "bad-op")
+    | some i => choose (runLikeObs (st.ds.map fun d => { d with paused := d.paused.set i false }) "ok") impl
+  | ["drop_rx", i] =>
+    if st.ds.isEmpty then (st, "bad-op") else
+    match st.ds.head?.bind (idxOf · i) with
+    | none => (st, "bad-op")
+    | some i =>
+      choose (st.ds.flatMap fun d =>
+        if protoAlive d.t i then runLikeObs [dstep { d with inq := d.inq.set i [] } (.dropRx i)] "ok"
+        else [observe d "none"]) impl
+  | ["half_close", i] =>
+    if st.ds.isEmpty then (st, "bad-op") else
+    match st.ds.head?.bind (idxOf · i) with
+    | none => (st, "bad-op")
+    | some i =>
+      -- whether yamux takes the close command is not the model's business: any answer, same state
+      choose (st.ds.flatMap fun d =>
+        if 0 < heldCount d i then
+          let d' := dstep d (.halfClose i)
+          ["ok", "err", "pending"].map fun r => observe d' r
+        else [observe d "none"]) impl
+  | ["read_sub", i] =>
+    if st.ds.isEmpty then (st, "bad-op") else
+    match st.ds.head?.bind (idxOf · i) with
+    | none => (st, "bad-op")
+    | some i =>
+      -- what the remote has sent on the substream is outside the model: any answer, same state
+      choose (st.ds.flatMap fun d =>
+        if 0 < heldCount d i then ["pending", "data", "eof", "err"].map fun r => observe d r
+        else [observe d "none"]) impl
   | _ =>
     if st.ds.isEmpty then (st, "bad-op") else
     let outs := st.ds.filterMap fun d => opOn d ts
